@@ -67,6 +67,14 @@ def spec_seq(draw, tier):
 
 
 def bias_cfg(kind, name, vnames, o, vkinds):
+    txt = bias_cfg_(kind, name, vnames, o, vkinds)
+    # some stateless restraints act every 2nd / 3rd step only: they sleep in between, and may be deleted while asleep
+    if kind in ("harmonic", "walls", "linear") and o.get("pick2", 0) % 5 == 4 and "zext" not in vkinds:
+        txt = txt[:-1] + "  timeStepFactor %d\n}" % (2 + o.get("pick", 0) % 2)
+    return txt
+
+
+def bias_cfg_(kind, name, vnames, o, vkinds):
     v = vnames[0]
     k, c = fmt(o["k"]), fmt(o["c"])
     if kind == "harmonic":
@@ -251,6 +259,7 @@ def check_seq(spec, ctx, variant="rel"):
             elif rec.get("t") == "depsdump" and cur is not None:
                 out[cur] = rec["dump"]
         return out
+    slow_b = set()
     dumpA, dumpB = dumps_by_op(rA), dumps_by_op(rB)
     for iop, o in enumerate(ops):
         op = o["op"]
@@ -259,6 +268,8 @@ def check_seq(spec, ctx, variant="rel"):
             vkind[o["name"]] = "ext" if "extendedLagrangian" in o["cfg"] else "plain"
         elif op == "addbias":
             live_b[o["name"]] = o["vars"]
+            if "timeStepFactor" in o["cfg"]:
+                slow_b.add(o["name"])
         elif op == "delbias":
             vs = live_b.pop(o["name"])
             deleted_any = True
@@ -307,6 +318,10 @@ def check_seq(spec, ctx, variant="rel"):
                 cb = cvB.get(c["name"])
                 if cb is None:
                     return Outcome(False, msg="variable %s missing in the clean run" % c["name"], sig="harness", case_text=full)
+                if (not c["active"] or not cb["active"]) and any(bn in slow_b and c["name"] in vs_ for bn, vs_ in live_b.items()) and \
+                        any(bn in doomed and c["name"] in vs_ for bn, vs_ in live_b.items()):
+                    continue      # in one of the two runs its only users are asleep at this step (documented: it is not computed then),
+                    #               because the other run has one more, or one less, user of the variable
                 if c["x"] != cb["x"]:
                     return Outcome(False, msg="step %d: value of surviving variable %s is %r, but %r had the deleted objects never existed" %
                                    (a["it"], c["name"], c["x"], cb["x"]), sig="survivor_value", case_text=full)
